@@ -130,6 +130,17 @@ Definition wstep (v : variant) (w : world) (o : sop) : res (world * list (list b
   | SPeek n dst =>
     do '(rc, data, d') <- dqueue_peek v (wr_ w) n dst;
     Ok (mkwd (ww w) d', [], PSPeek rc data)
+  | SRaw bytes =>
+    (* the reader half of do_wire with bytes that do not come from the writer *)
+    let k := length bytes in
+    if k =? 0 then Ok (w, [], PSOk) else
+    let rq := dq_q (wr_ w) in
+    do rq1 <- (if qmax rq - qlen rq <? k then
+                 match qprepare rq k FILL with Ok (q', _) => Ok q' | Err _ => Ok rq | Fault => Fault end
+               else Ok rq);
+    if qmax rq1 - qlen rq1 <? k then Ok (mkwd (ww w) (mkdq rq1 (dq_st (wr_ w))), [], PSOk) else
+    do rq2 <- (match qpush rq1 bytes with Ok q' => Ok q' | Err _ => Ok rq1 | Fault => Fault end);
+    Ok (mkwd (ww w) (mkdq rq2 (dq_st (wr_ w))), [], PSOk)
   end.
 
 Fixpoint wrun (v : variant) (w : world) (ops : list sop) : list (option sobs) :=
